@@ -8,7 +8,7 @@ EXTENDS PushRand, Json, IOUtils
 
 HarnessInstr == {"VERIF.PROBE", "VERIF.SLEEP", "VERIF.NOOP*WITH*A*NAME*LONGER*THAN*ANY*BUILTIN*INSTRUCTION",
                  "VERIF.NÖÖP*MIT*UMLÄUTEN*ÜBER*DREIUNDZWANZIG*BYTES", "VERIF.ÄÖÜ*ÄÖÜ*ÄÖÜ*ÄÖÜ*ÄÖÜ*ÄÖÜ*ÄÖÜ*ÄÖÜ*ÄÖÜ*ÄÖÜ*ÄÖÜ*ÄÖÜ*NOOP", "VERIF.MyInstruction", "VERIFSQUARE", "verif.lower", "2VERIF", "424242", "4.25", "BOOL[1,0]", "INT[7", "integer.max", "Float.<", "name.cat", "intvector.sum", "VERIF.EARLY",
-                 "VERIF.LATE*ADDITION*WITH*A*NAME*LONGER*THAN*ALL*THE*OTHERS*TOGETHER", "VERIF.LATE", "ПОЗДНО.ДОБАВЛЕННАЯ*ИНСТРУКЦИЯ"}
+                 "VERIF.LATE*ADDITION*XXXXXXXXXXXXXXXXXXXXXXXXXXXXXXXXXXXXXXXXXXXXXXXXXXXXXXXXXXXXXXXXXXXXXXXXXXXXXXXXXXXXXXXXXXXXXXXXXXXXXXXXXXXXXXXXXXXXXXXXXXXXXXXXXX", "VERIF.LATE", "ПОЗДНО.ДОБАВЛЕННАЯ*ИНСТРУКЦИЯ"}
 Registry == StackOpNames \cup ScalarInstr \cup CodeFamily \cup VectorInstr \cup ListInstr \cup IOInstr
             \cup GraphInstr \cup RandInstr \cup {"NOOP"}
 \* instructions the build under test registers beyond those the specification gives a meaning to (supplied by the harness
